@@ -295,6 +295,24 @@ func (c *Check) fixedC11() []*plan.Plan {
 	{
 		pd := append([]gen.GenDoc{}, docs[:min(5, len(docs))]...)
 		pd = append(pd, gen.PagerDoc(0x11d1), gen.LinkFarm(0x11d2, 600))
+		// pages that mention dates: calendar-style pagers (/2014/03/2), publication dates, display dates
+		want := map[string]int{"pager-calendar": 3, "schemaorg": 1, "ie-reader-meta": 1}
+		for i := 0; i < 3000 && len(want) > 0; i++ {
+			d := gen.Document(uint64(0xda7e + i*31))
+			if len(d.Bytes) > 40000 {
+				continue
+			}
+			for _, f := range d.Features {
+				if want[f] > 0 {
+					want[f]--
+					if want[f] == 0 {
+						delete(want, f)
+					}
+					pd = append(pd, d)
+					break
+				}
+			}
+		}
 		envs := gen.ProcEnvs()
 		k := 0
 		for di, d := range pd {
@@ -307,8 +325,8 @@ func (c *Check) fixedC11() []*plan.Plan {
 				run++
 				p.Docs = []plan.Doc{plan.NewDoc("d0", d.Bytes, d.Origin)}
 				p.Trees = []plan.Tree{{ID: "t0", Doc: "d0", Root: "document"}}
-				p.Options = []plan.Opt{optWithURL("o0", url, uint(v%2), 0)}
-				p.Tasks = [][]plan.Op{{{Op: "Apply", Tree: "t0", Opt: "o0"}, {Op: "Reader", Doc: "d0", Opt: "o0"}, {Op: "File", Doc: "d0", Opt: "o0"}}}
+				p.Options = []plan.Opt{optWithURL("o0", url, 0, 0), optWithURL("o1", url, 1, 0)}
+				p.Tasks = [][]plan.Op{{{Op: "Apply", Tree: "t0", Opt: "o0"}, {Op: "Apply", Tree: "t0", Opt: "o1"}, {Op: "Reader", Doc: "d0", Opt: "o1"}, {Op: "File", Doc: "d0", Opt: "o0"}}}
 				if v%2 == 0 {
 					p.Schedule.StartOffsetNs = gen.Moments[k%len(gen.Moments)]
 				}
@@ -316,6 +334,26 @@ func (c *Check) fixedC11() []*plan.Plan {
 					p.Proc = envs[k%len(envs)]
 				}
 				k++
+				out = append(out, p)
+			}
+		}
+	}
+	// (2d) the same class / id strings in opposite surroundings, one page after the other, both orders
+	{
+		maxPairs := 30
+		if c.tier == "thorough" {
+			maxPairs = 400
+		}
+		for i, pr := range gen.ContextSwapPairs(maxPairs) {
+			if i%8 == 0 {
+				c.noteDoc(pr[0])
+			}
+			for order := 0; order < 2; order++ {
+				p := c.newPlan("history", run, uint64(9000+i*2+order), "bubble")
+				run++
+				p.Docs = []plan.Doc{plan.NewDoc("d0", pr[order].Bytes, pr[order].Origin), plan.NewDoc("d1", pr[1-order].Bytes, pr[1-order].Origin)}
+				p.Options = []plan.Opt{optWithURL("o0", pr[order].URL, 0, 0), optWithURL("o1", pr[1-order].URL, 1, 0)}
+				p.Tasks = [][]plan.Op{{{Op: "Reader", Doc: "d0", Opt: "o0"}, {Op: "Reader", Doc: "d1", Opt: "o1"}, {Op: "Reader", Doc: "d0", Opt: "o0"}}}
 				out = append(out, p)
 			}
 		}
@@ -436,7 +474,7 @@ func (c *Check) fixedC11() []*plan.Plan {
 }
 
 func (c *Check) randC11(r *gen.Rand, run int, seed uint64) *plan.Plan {
-	batch := gen.Pick(r, []string{"maporder", "maporder", "history", "delivery", "childorder", "pagers", "cpu-speed", "process-env"})
+	batch := gen.Pick(r, []string{"maporder", "maporder", "history", "history", "delivery", "childorder", "pagers", "cpu-speed", "process-env"})
 	if batch == "process-env" {
 		d := gen.RandDoc(r)
 		c.noteDoc(d)
@@ -518,7 +556,7 @@ func (c *Check) randC11(r *gen.Rand, run int, seed uint64) *plan.Plan {
 	case "history":
 		nd := r.Range(2, 5)
 		var family []gen.GenDoc
-		if r.P(1, 3) {
+		if r.P(1, 4) {
 			// related pages: two pages, the same two in another language, and their crossovers
 			// (the head of one with the body of the other)
 			sa, sb := r.U64(), r.U64()
@@ -829,6 +867,7 @@ func (c *Check) fixedC13() []*plan.Plan {
 	probes = append(probes, gen.CaseTwinDocs()...)
 	probes = append(probes, gen.AttrValueTruncationDocs()...)
 	probes = append(probes, gen.OGPrefixDocs()...)
+	probes = append(probes, gen.ResponsiveImagePages()...)
 	for di, d := range probes {
 		c.noteDoc(d)
 		out = append(out, c.c13Variant(run, uint64(5000+di), d, d.URL, uint(di%2), di%5 == 4, 31, []string{"null", "file"}[di%2], nil, "Apply"))
@@ -1241,6 +1280,7 @@ func (c *Check) probePlans(run *int) []*plan.Plan {
 	docs = append(docs, gen.CaseTwinDocs()...)
 	docs = append(docs, gen.AttrValueTruncationDocs()...)
 	docs = append(docs, gen.OGPrefixDocs()...)
+	docs = append(docs, gen.ResponsiveImagePages()...)
 	for di := 0; di < len(docs); di += 3 {
 		p := c.newPlan("probes", *run, uint64(di), c.kernelName())
 		*run++
@@ -1450,7 +1490,8 @@ func (c *Check) fixedC12() []*plan.Plan {
 		probes = append(probes, gen.CaseTwinDocs()...)
 		probes = append(probes, gen.AttrValueTruncationDocs()...)
 		probes = append(probes, gen.OGPrefixDocs()...)
-		per := 40
+		probes = append(probes, gen.ResponsiveImagePages()...)
+		per := 16
 		if c.tier == "thorough" {
 			per = 12
 		}
@@ -1478,8 +1519,18 @@ func (c *Check) fixedC12() []*plan.Plan {
 			p.Tasks = [][]plan.Op{t0, t1}
 			// dense and in step: both callers pass through the same code at about the same time, so few of the
 			// incidental happens-before edges (sync.Pool objects handed from one caller to the other) come in between
-			p.Schedule = gen.RandSchedule(gen.NewRand(uint64(0x9b0+lo)), 2, []int{15, 40}[(lo/per)%2], 400)
-			p.Schedule.After = "cycle"
+			if (lo/per)%2 == 0 || c.tier != "thorough" {
+				// strict alternation at every yield point: two callers on the same page run the same code one
+				// segment apart, so even a window of a single segment between an access and the next
+				// synchronising call of the code under test (a sync.Map, a mutex) is met
+				p.Schedule = plan.Schedule{Gaps: [][2]int{{1, 1}, {1, 0}}, After: "cycle"}
+			} else {
+				p.Schedule = plan.Schedule{After: "cycle"}
+				r := gen.NewRand(uint64(0x9b0 + lo))
+				for i := 0; i < 400; i++ {
+					p.Schedule.Gaps = append(p.Schedule.Gaps, [2]int{1 + r.Intn(30), i % 2})
+				}
+			}
 			out = append(out, p)
 		}
 	}
